@@ -28,7 +28,7 @@ theorem CbLive.vdead {s : St} (c : CbLive s) (w : InvW s) (p : InvP s) : alive (
   cases h : alive (s.status .V) with
   | false => rfl
   | true =>
-    obtain ⟨a, ha, hp⟩ := (p c.op).2 h
+    obtain ⟨a, ha, hp⟩ := (p c.op).2.1 h
     have := w.busy a ⟨by rw [ha]; rfl, hp⟩
     rw [c.busy] at this; cases this
 
